@@ -144,5 +144,103 @@ theorem status_writeB (a : Apu) (addr v : Nat) :
     repeat' split
     all_goals first | exact key _ (StatusLe.refl _) | exact key _ (st_writeWaveRAM a _ v)
 
+/-! which writes can change which status bit at all -/
+
+theorem eq_writeNR10 (a : Apu) (v : Nat) : (a.writeNR10 v).ch2.enabled = a.ch2.enabled ∧ (a.writeNR10 v).ch3.enabled = a.ch3.enabled ∧ (a.writeNR10 v).ch4.enabled = a.ch4.enabled := by
+  unfold writeNR10; split <;> exact ⟨rfl, rfl, rfl⟩
+theorem eq_writeNR11 (a : Apu) (v : Nat) : (a.writeNR11 v).ch1.enabled = a.ch1.enabled ∧ (a.writeNR11 v).ch2.enabled = a.ch2.enabled ∧ (a.writeNR11 v).ch3.enabled = a.ch3.enabled ∧ (a.writeNR11 v).ch4.enabled = a.ch4.enabled := ⟨rfl, rfl, rfl, rfl⟩
+theorem eq_writeNR12 (a : Apu) (v : Nat) : (a.writeNR12 v).ch2.enabled = a.ch2.enabled ∧ (a.writeNR12 v).ch3.enabled = a.ch3.enabled ∧ (a.writeNR12 v).ch4.enabled = a.ch4.enabled := by
+  unfold writeNR12; split <;> exact ⟨rfl, rfl, rfl⟩
+theorem eq_writeNR13 (a : Apu) (v : Nat) : (a.writeNR13 v).ch1.enabled = a.ch1.enabled ∧ (a.writeNR13 v).ch2.enabled = a.ch2.enabled ∧ (a.writeNR13 v).ch3.enabled = a.ch3.enabled ∧ (a.writeNR13 v).ch4.enabled = a.ch4.enabled := by
+  unfold writeNR13; split <;> exact ⟨rfl, rfl, rfl, rfl⟩
+theorem eq_writeNR14 (a : Apu) (v : Nat) : (a.writeNR14 v).ch2.enabled = a.ch2.enabled ∧ (a.writeNR14 v).ch3.enabled = a.ch3.enabled ∧ (a.writeNR14 v).ch4.enabled = a.ch4.enabled := by
+  unfold writeNR14; split <;> exact ⟨rfl, rfl, rfl⟩
+theorem eq_writeNR21 (a : Apu) (v : Nat) : (a.writeNR21 v).ch1.enabled = a.ch1.enabled ∧ (a.writeNR21 v).ch2.enabled = a.ch2.enabled ∧ (a.writeNR21 v).ch3.enabled = a.ch3.enabled ∧ (a.writeNR21 v).ch4.enabled = a.ch4.enabled := ⟨rfl, rfl, rfl, rfl⟩
+theorem eq_writeNR22 (a : Apu) (v : Nat) : (a.writeNR22 v).ch1.enabled = a.ch1.enabled ∧ (a.writeNR22 v).ch3.enabled = a.ch3.enabled ∧ (a.writeNR22 v).ch4.enabled = a.ch4.enabled := by
+  unfold writeNR22; split <;> exact ⟨rfl, rfl, rfl⟩
+theorem eq_writeNR23 (a : Apu) (v : Nat) : (a.writeNR23 v).ch1.enabled = a.ch1.enabled ∧ (a.writeNR23 v).ch2.enabled = a.ch2.enabled ∧ (a.writeNR23 v).ch3.enabled = a.ch3.enabled ∧ (a.writeNR23 v).ch4.enabled = a.ch4.enabled := by
+  unfold writeNR23; split <;> exact ⟨rfl, rfl, rfl, rfl⟩
+theorem eq_writeNR24 (a : Apu) (v : Nat) : (a.writeNR24 v).ch1.enabled = a.ch1.enabled ∧ (a.writeNR24 v).ch3.enabled = a.ch3.enabled ∧ (a.writeNR24 v).ch4.enabled = a.ch4.enabled := by
+  unfold writeNR24; split <;> exact ⟨rfl, rfl, rfl⟩
+theorem eq_writeNR30 (a : Apu) (v : Nat) : (a.writeNR30 v).ch1.enabled = a.ch1.enabled ∧ (a.writeNR30 v).ch2.enabled = a.ch2.enabled ∧ (a.writeNR30 v).ch4.enabled = a.ch4.enabled := by
+  unfold writeNR30; split <;> exact ⟨rfl, rfl, rfl⟩
+theorem eq_writeNR31 (a : Apu) (v : Nat) : (a.writeNR31 v).ch1.enabled = a.ch1.enabled ∧ (a.writeNR31 v).ch2.enabled = a.ch2.enabled ∧ (a.writeNR31 v).ch3.enabled = a.ch3.enabled ∧ (a.writeNR31 v).ch4.enabled = a.ch4.enabled := ⟨rfl, rfl, rfl, rfl⟩
+theorem eq_writeNR32 (a : Apu) (v : Nat) : (a.writeNR32 v).ch1.enabled = a.ch1.enabled ∧ (a.writeNR32 v).ch2.enabled = a.ch2.enabled ∧ (a.writeNR32 v).ch3.enabled = a.ch3.enabled ∧ (a.writeNR32 v).ch4.enabled = a.ch4.enabled := by
+  unfold writeNR32; split <;> exact ⟨rfl, rfl, rfl, rfl⟩
+theorem eq_writeNR33 (a : Apu) (v : Nat) : (a.writeNR33 v).ch1.enabled = a.ch1.enabled ∧ (a.writeNR33 v).ch2.enabled = a.ch2.enabled ∧ (a.writeNR33 v).ch3.enabled = a.ch3.enabled ∧ (a.writeNR33 v).ch4.enabled = a.ch4.enabled := by
+  unfold writeNR33; split <;> exact ⟨rfl, rfl, rfl, rfl⟩
+theorem eq_writeNR34 (a : Apu) (v : Nat) : (a.writeNR34 v).ch1.enabled = a.ch1.enabled ∧ (a.writeNR34 v).ch2.enabled = a.ch2.enabled ∧ (a.writeNR34 v).ch4.enabled = a.ch4.enabled := by
+  unfold writeNR34; split <;> exact ⟨rfl, rfl, rfl⟩
+theorem eq_writeNR41 (a : Apu) (v : Nat) : (a.writeNR41 v).ch1.enabled = a.ch1.enabled ∧ (a.writeNR41 v).ch2.enabled = a.ch2.enabled ∧ (a.writeNR41 v).ch3.enabled = a.ch3.enabled ∧ (a.writeNR41 v).ch4.enabled = a.ch4.enabled := ⟨rfl, rfl, rfl, rfl⟩
+theorem eq_writeNR42 (a : Apu) (v : Nat) : (a.writeNR42 v).ch1.enabled = a.ch1.enabled ∧ (a.writeNR42 v).ch2.enabled = a.ch2.enabled ∧ (a.writeNR42 v).ch3.enabled = a.ch3.enabled := by
+  unfold writeNR42; split <;> exact ⟨rfl, rfl, rfl⟩
+theorem eq_writeNR43 (a : Apu) (v : Nat) : (a.writeNR43 v).ch1.enabled = a.ch1.enabled ∧ (a.writeNR43 v).ch2.enabled = a.ch2.enabled ∧ (a.writeNR43 v).ch3.enabled = a.ch3.enabled ∧ (a.writeNR43 v).ch4.enabled = a.ch4.enabled := by
+  unfold writeNR43; split <;> exact ⟨rfl, rfl, rfl, rfl⟩
+theorem eq_writeNR44 (a : Apu) (v : Nat) : (a.writeNR44 v).ch1.enabled = a.ch1.enabled ∧ (a.writeNR44 v).ch2.enabled = a.ch2.enabled ∧ (a.writeNR44 v).ch3.enabled = a.ch3.enabled := by
+  unfold writeNR44; split <;> exact ⟨rfl, rfl, rfl⟩
+theorem eq_writeNR50 (a : Apu) (v : Nat) : (a.writeNR50 v).ch1.enabled = a.ch1.enabled ∧ (a.writeNR50 v).ch2.enabled = a.ch2.enabled ∧ (a.writeNR50 v).ch3.enabled = a.ch3.enabled ∧ (a.writeNR50 v).ch4.enabled = a.ch4.enabled := by
+  unfold writeNR50; split <;> exact ⟨rfl, rfl, rfl, rfl⟩
+theorem eq_writeNR51 (a : Apu) (v : Nat) : (a.writeNR51 v).ch1.enabled = a.ch1.enabled ∧ (a.writeNR51 v).ch2.enabled = a.ch2.enabled ∧ (a.writeNR51 v).ch3.enabled = a.ch3.enabled ∧ (a.writeNR51 v).ch4.enabled = a.ch4.enabled := by
+  unfold writeNR51; split <;> exact ⟨rfl, rfl, rfl, rfl⟩
+theorem eq_writeWaveRAM (a : Apu) (i v : Nat) : (a.writeWaveRAM i v).ch1.enabled = a.ch1.enabled ∧
+    (a.writeWaveRAM i v).ch2.enabled = a.ch2.enabled ∧ (a.writeWaveRAM i v).ch3.enabled = a.ch3.enabled ∧
+    (a.writeWaveRAM i v).ch4.enabled = a.ch4.enabled := ⟨rfl, rfl, Wave.en_writeRam _ _ _, rfl⟩
+
+/-- a status bit can be CHANGED only by a write to the channel's own NRx0/NRx2/NRx4 or to NR52 -/
+theorem status_writeB_eq (a : Apu) (addr v : Nat) :
+    (addr ≠ 0xFF10 → addr ≠ 0xFF12 → addr ≠ 0xFF14 → addr ≠ 0xFF26 → (a.writeB addr v).ch1.enabled = a.ch1.enabled) ∧
+    (addr ≠ 0xFF17 → addr ≠ 0xFF19 → addr ≠ 0xFF26 → (a.writeB addr v).ch2.enabled = a.ch2.enabled) ∧
+    (addr ≠ 0xFF1A → addr ≠ 0xFF1E → addr ≠ 0xFF26 → (a.writeB addr v).ch3.enabled = a.ch3.enabled) ∧
+    (addr ≠ 0xFF21 → addr ≠ 0xFF23 → addr ≠ 0xFF26 → (a.writeB addr v).ch4.enabled = a.ch4.enabled) := by
+  rcases addr_cases addr with e|e|e|e|e|e|e|e|e|e|e|e|e|e|e|e|e|e|e|e|e|⟨hn, h52⟩
+  · subst e; rw [writeB_FF10]; obtain ⟨q2, q3, q4⟩ := eq_writeNR10 a v
+    exact ⟨fun h _ _ _ => absurd rfl h, fun _ _ _ => q2, fun _ _ _ => q3, fun _ _ _ => q4⟩
+  · subst e; rw [writeB_FF11]; obtain ⟨q1, q2, q3, q4⟩ := eq_writeNR11 a v
+    exact ⟨fun _ _ _ _ => q1, fun _ _ _ => q2, fun _ _ _ => q3, fun _ _ _ => q4⟩
+  · subst e; rw [writeB_FF12]; obtain ⟨q2, q3, q4⟩ := eq_writeNR12 a v
+    exact ⟨fun _ h _ _ => absurd rfl h, fun _ _ _ => q2, fun _ _ _ => q3, fun _ _ _ => q4⟩
+  · subst e; rw [writeB_FF13]; obtain ⟨q1, q2, q3, q4⟩ := eq_writeNR13 a v
+    exact ⟨fun _ _ _ _ => q1, fun _ _ _ => q2, fun _ _ _ => q3, fun _ _ _ => q4⟩
+  · subst e; rw [writeB_FF14]; obtain ⟨q2, q3, q4⟩ := eq_writeNR14 a v
+    exact ⟨fun _ _ h _ => absurd rfl h, fun _ _ _ => q2, fun _ _ _ => q3, fun _ _ _ => q4⟩
+  · subst e; rw [writeB_FF16]; obtain ⟨q1, q2, q3, q4⟩ := eq_writeNR21 a v
+    exact ⟨fun _ _ _ _ => q1, fun _ _ _ => q2, fun _ _ _ => q3, fun _ _ _ => q4⟩
+  · subst e; rw [writeB_FF17]; obtain ⟨q1, q3, q4⟩ := eq_writeNR22 a v
+    exact ⟨fun _ _ _ _ => q1, fun h _ _ => absurd rfl h, fun _ _ _ => q3, fun _ _ _ => q4⟩
+  · subst e; rw [writeB_FF18]; obtain ⟨q1, q2, q3, q4⟩ := eq_writeNR23 a v
+    exact ⟨fun _ _ _ _ => q1, fun _ _ _ => q2, fun _ _ _ => q3, fun _ _ _ => q4⟩
+  · subst e; rw [writeB_FF19]; obtain ⟨q1, q3, q4⟩ := eq_writeNR24 a v
+    exact ⟨fun _ _ _ _ => q1, fun _ h _ => absurd rfl h, fun _ _ _ => q3, fun _ _ _ => q4⟩
+  · subst e; rw [writeB_FF1A]; obtain ⟨q1, q2, q4⟩ := eq_writeNR30 a v
+    exact ⟨fun _ _ _ _ => q1, fun _ _ _ => q2, fun h _ _ => absurd rfl h, fun _ _ _ => q4⟩
+  · subst e; rw [writeB_FF1B]; obtain ⟨q1, q2, q3, q4⟩ := eq_writeNR31 a v
+    exact ⟨fun _ _ _ _ => q1, fun _ _ _ => q2, fun _ _ _ => q3, fun _ _ _ => q4⟩
+  · subst e; rw [writeB_FF1C]; obtain ⟨q1, q2, q3, q4⟩ := eq_writeNR32 a v
+    exact ⟨fun _ _ _ _ => q1, fun _ _ _ => q2, fun _ _ _ => q3, fun _ _ _ => q4⟩
+  · subst e; rw [writeB_FF1D]; obtain ⟨q1, q2, q3, q4⟩ := eq_writeNR33 a v
+    exact ⟨fun _ _ _ _ => q1, fun _ _ _ => q2, fun _ _ _ => q3, fun _ _ _ => q4⟩
+  · subst e; rw [writeB_FF1E]; obtain ⟨q1, q2, q4⟩ := eq_writeNR34 a v
+    exact ⟨fun _ _ _ _ => q1, fun _ _ _ => q2, fun _ h _ => absurd rfl h, fun _ _ _ => q4⟩
+  · subst e; rw [writeB_FF20]; obtain ⟨q1, q2, q3, q4⟩ := eq_writeNR41 a v
+    exact ⟨fun _ _ _ _ => q1, fun _ _ _ => q2, fun _ _ _ => q3, fun _ _ _ => q4⟩
+  · subst e; rw [writeB_FF21]; obtain ⟨q1, q2, q3⟩ := eq_writeNR42 a v
+    exact ⟨fun _ _ _ _ => q1, fun _ _ _ => q2, fun _ _ _ => q3, fun h _ _ => absurd rfl h⟩
+  · subst e; rw [writeB_FF22]; obtain ⟨q1, q2, q3, q4⟩ := eq_writeNR43 a v
+    exact ⟨fun _ _ _ _ => q1, fun _ _ _ => q2, fun _ _ _ => q3, fun _ _ _ => q4⟩
+  · subst e; rw [writeB_FF23]; obtain ⟨q1, q2, q3⟩ := eq_writeNR44 a v
+    exact ⟨fun _ _ _ _ => q1, fun _ _ _ => q2, fun _ _ _ => q3, fun _ h _ => absurd rfl h⟩
+  · subst e; rw [writeB_FF24]; obtain ⟨q1, q2, q3, q4⟩ := eq_writeNR50 a v
+    exact ⟨fun _ _ _ _ => q1, fun _ _ _ => q2, fun _ _ _ => q3, fun _ _ _ => q4⟩
+  · subst e; rw [writeB_FF25]; obtain ⟨q1, q2, q3, q4⟩ := eq_writeNR51 a v
+    exact ⟨fun _ _ _ _ => q1, fun _ _ _ => q2, fun _ _ _ => q3, fun _ _ _ => q4⟩
+  · subst e
+    exact ⟨fun _ _ _ h => absurd rfl h, fun _ _ h => absurd rfl h, fun _ _ h => absurd rfl h, fun _ _ h => absurd rfl h⟩
+  · rw [writeB_other _ _ _ hn h52]
+    repeat' split
+    · exact ⟨fun _ _ _ _ => rfl, fun _ _ _ => rfl, fun _ _ _ => rfl, fun _ _ _ => rfl⟩
+    · obtain ⟨q1, q2, q3, q4⟩ := eq_writeWaveRAM a (addr - 0xFF30) v
+      exact ⟨fun _ _ _ _ => q1, fun _ _ _ => q2, fun _ _ _ => q3, fun _ _ _ => q4⟩
+    · exact ⟨fun _ _ _ _ => rfl, fun _ _ _ => rfl, fun _ _ _ => rfl, fun _ _ _ => rfl⟩
+
 end Apu
 end Tetro.Model.Apu
